@@ -300,7 +300,7 @@ func c16RunWire(b core.Batch, r *core.Recorder) {
 		if idx < 0 || idx >= len(respHeads) {
 			idx = 0
 		}
-		rec.Note = fmt.Sprint(idx)
+		rec.SetNote(fmt.Sprint(idx))
 		return []byte(respHeads[idx]), true
 	})
 	defer o.Close()
